@@ -232,6 +232,10 @@ func preload(round string, flags *cmd.ExecuteFlags) {
 
 			cmd.ApplyParserFlags(&p)
 
+			// the cursor row of an editor query is a row of the analysed file,
+			// not of the files loaded before it
+			p.LspTargetRow = 0
+
 			evaluationLoop(p, flags, round, true)
 
 			fp.Close()
